@@ -103,7 +103,7 @@ import uuid
 __all__ = [
     'setup', 'load_sdl', 'migrate', 'migration_script', 'replay_text', 'schema_diff',
     'dump', 'dump_diff', 'user_objects', 'Spec', 'render', 'gen_spec', 'mutate',
-    'shrink_pair', 'empty_spec', 'shared_sites', 'SHARED_MUTATIONS', 'OPT_IN_FEATURES', 'FEATURES', 'DEFAULT_FEATURES', 'FRAGILE_FEATURES', 'MUTATIONS', 'HARD_MUTATIONS', 'features_of', 'check',
+    'shrink_pair', 'empty_spec', 'shared_sites', 'SHARED_MUTATIONS', 'PIN_MUTATIONS', 'OPT_IN_FEATURES', 'FEATURES', 'DEFAULT_FEATURES', 'FRAGILE_FEATURES', 'MUTATIONS', 'HARD_MUTATIONS', 'features_of', 'check',
     'EXCLUDED_FIELDS',
 ]
 
@@ -712,6 +712,19 @@ def _fix_overloaded(spec) -> None:
             inherited.update(p['name'] for _, p in _own_ptrs(types[a]))
         for _, p in _own_ptrs(t):
             p['overloaded'] = p['name'] in inherited
+            if p.get('unpin'):
+                # a facet may be left unstated ("unpinned") only on an overload, and only when every inherited
+                # definition has the value the overload has (so that the effective value does not change)
+                inh = [d for o, _, d in _visible(spec, q, types).get(p['name'], []) if o != q]
+                ok = []
+                if p['overloaded'] and inh and not p.get('computed'):
+                    if 'required' in p['unpin'] and p['required'] and all(d['required'] for d in inh):
+                        ok.append('required')
+                    if 'multi' in p['unpin'] and p['card'] == 'multi' and all(d['card'] == 'multi' for d in inh):
+                        ok.append('multi')
+                    if 'readonly' in p['unpin'] and p.get('readonly') and all(d.get('readonly') for d in inh):
+                        ok.append('readonly')
+                p['unpin'] = ok
 
 
 RESERVED_PTR_NAMES = {'id', '__type__', 'source', 'target'}
@@ -1015,15 +1028,16 @@ class _R:
                 return [f"{head}{kw} {p['name']} := ({self.expr(p['computed'], True)});"]
             return [f"{head}{kw} {p['name']} {{", f"    using ({self.expr(p['computed'], True)});"] + \
                 ['    ' + b for b in body] + ['};']
-        if p['required']:
+        unpin = p.get('unpin') or ()
+        if p['required'] and 'required' not in unpin:
             head += 'required '
-        if p['card'] == 'multi':
+        if p['card'] == 'multi' and 'multi' not in unpin:
             head += 'multi '
         elif p.get('explicit_single'):
             head += 'single '
         tgt = self.name(p['type'] if kind == 'prop' else p['target'])
         ext = f" extending {self.name(p['extending'])}" if p.get('extending') else ''
-        if p.get('readonly'):
+        if p.get('readonly') and 'readonly' not in unpin:
             body.append('readonly := true;')
         if p.get('default'):
             body.append(f"default := ({self.expr(p['default'])});")
@@ -1185,7 +1199,7 @@ FEATURES = (
     'obj_constraints', 'delegated', 'indexes', 'annotations', 'user_annotations',
     'defaults', 'computed_props', 'computed_links', 'backlinks', 'aliases', 'functions',
     'obj_functions', 'globals', 'modules', 'nested_modules', 'overloaded', 'abstract_ptrs',
-    'nested_alias_shapes', 'shared_ptrs',
+    'nested_alias_shapes', 'shared_ptrs', 'pinned_facets',
 )
 #: feature groups that are NOT part of the default set because the engine's SDL
 #: loader is unreliable on them (declaration-order dependent failures, internal
@@ -1195,7 +1209,7 @@ FRAGILE_FEATURES = ('nested_alias_shapes',)
 #: 'shared_ptrs' = a same-named pointer (property or link, with / without link properties, constraints,
 #: annotations) provided by two or three UNRELATED parents and inherited by a non-overloading child, plus a
 #: grandchild.  Ask for it with ``features=set(DEFAULT_FEATURES) | {'shared_ptrs'}``.
-OPT_IN_FEATURES = ('shared_ptrs',)
+OPT_IN_FEATURES = ('shared_ptrs', 'pinned_facets')
 DEFAULT_FEATURES = tuple(f for f in FEATURES if f not in FRAGILE_FEATURES and f not in OPT_IN_FEATURES)
 
 # none of these is a reserved keyword (checked against edgeql-parser/src/keywords.rs)
@@ -1939,6 +1953,9 @@ def _gen_once(rng, size, feats) -> Spec:
         for _ in range(rng.choice([1, 1, 2])):
             _shared_family(rng, spec, feats, mod())
     _fix_overloaded(spec)
+    if 'pinned_facets' in feats:
+        _unpin_randomly(rng, spec)
+    _fix_overloaded(spec)
     _prune(spec)
     return spec
 
@@ -2554,6 +2571,82 @@ def m_reparent_overload_away(rng, spec, feats):
         return 'reparent_overload_away:new_base'
     t['bases'] = []
     return 'reparent_overload_away:no_base'
+
+
+def _pin_sites(spec, want_unpinned):
+    """[(entry, facet)]: facets of overloaded pointers that are currently stated locally with the value they would
+    inherit anyway (want_unpinned=False) or currently left to inheritance (want_unpinned=True)"""
+    types = _index(spec, 'types')
+    out = []
+    for q, t in types.items():
+        for _, p in _own_ptrs(t):
+            if not p.get('overloaded') or p.get('computed'):
+                continue
+            inh = [d for o, _, d in _visible(spec, q, types).get(p['name'], []) if o != q]
+            if not inh:
+                continue
+            un = p.get('unpin') or []
+            cands = []
+            if p['required'] and all(d['required'] for d in inh):
+                cands.append('required')
+            if p['card'] == 'multi' and all(d['card'] == 'multi' for d in inh):
+                cands.append('multi')
+            if p.get('readonly') and all(d.get('readonly') for d in inh):
+                cands.append('readonly')
+            for f in cands:
+                if (f in un) == want_unpinned:
+                    out.append((p, f))
+    return out
+
+
+def m_unpin_facet(rng, spec, feats):
+    """stop stating an inheritable facet (required / multi / readonly) of an overloaded pointer locally: the value is
+    the one it inherits anyway, only the inherited-vs-local status changes"""
+    c = _pin_sites(spec, False)
+    if not c:
+        return None
+    p, f = rng.choice(c)
+    p['unpin'] = sorted(set(p.get('unpin') or []) | {f})
+    return 'unpin_facet:' + f
+
+
+def m_pin_facet(rng, spec, feats):
+    """state an inheritable facet of an overloaded pointer locally with the value it inherits anyway"""
+    c = _pin_sites(spec, True)
+    if not c:
+        return None
+    p, f = rng.choice(c)
+    p['unpin'] = sorted(set(p.get('unpin') or []) - {f})
+    return 'pin_facet:' + f
+
+
+def m_parent_facet_toggle(rng, spec, feats):
+    """change an inheritable facet (required) of a pointer that some subtype overloads"""
+    types = _index(spec, 'types')
+    c = []
+    for q, t in types.items():
+        for _, p in _own_ptrs(t):
+            if p.get('overloaded') and not p.get('computed'):
+                for o, _, d in _visible(spec, q, types).get(p['name'], []):
+                    if o != q and not d.get('computed') and not d.get('overloaded'):
+                        c.append(d)
+    if not c:
+        return None
+    d = rng.choice(c)
+    d['required'] = not d['required']
+    if d['required']:
+        d['default'] = None
+    return 'parent_facet_toggle:required_' + ('on' if d['required'] else 'off')
+
+
+PIN_MUTATIONS = ('pin_facet', 'unpin_facet', 'parent_facet_toggle')
+
+
+def _unpin_randomly(rng, spec):
+    """feature 'pinned_facets': leave some facets of generated overloads to inheritance"""
+    for p, f in _pin_sites(spec, False):
+        if rng.random() < 0.5:
+            p['unpin'] = sorted(set(p.get('unpin') or []) | {f})
 
 
 SHARED_MUTATIONS = ('shared_drop_from_one_parent', 'shared_alter_in_one_parent', 'shared_add_to_second_parent',
@@ -3290,6 +3383,9 @@ _MUT_TABLE = (
     ('rebase_multi', m_rebase_multi, 0, False),
     ('drop_adjacent_bases', m_drop_adjacent_bases, 0, False),
     ('reparent_overload_away', m_reparent_overload_away, 0, False),
+    ('pin_facet', m_pin_facet, 0, False),
+    ('unpin_facet', m_unpin_facet, 0, False),
+    ('parent_facet_toggle', m_parent_facet_toggle, 0, False),
     ('shared_drop_from_one_parent', m_shared_drop_one, 0, False),
     ('shared_alter_in_one_parent', m_shared_alter_one, 0, False),
     ('shared_add_to_second_parent', m_shared_add_second, 0, False),
